@@ -1112,6 +1112,17 @@ func main() {
 		fmt.Fprintf(&b, "  mk_row %q %q %v %q %q %s %d %d %d %d %d %d %v %v %v%s\n", r.typ, r.method, r.exported, r.owner, r.mutex,
 			modes[r.mode], r.reads, r.writes, r.unlockedR, r.unlockedW, r.sharedW, r.sections, r.reacquire, r.condwait, r.quiescent, sep)
 	}
+	b.WriteString("].\n\n")
+	cbRows := scanCallbacks(strings.TrimRight(*repo, "/"))
+	b.WriteString("(* places where one of the objects is constructed with callbacks: site, object, callbacks that are function\n   literals, calls from such a literal on the object being constructed (re-entrant), callbacks from elsewhere *)\n")
+	b.WriteString("Definition callback_table : list cb_row := [\n")
+	for i, r := range cbRows {
+		sep := ";"
+		if i == len(cbRows)-1 {
+			sep = ""
+		}
+		fmt.Fprintf(&b, "  mk_cb %q %q %d %d %d%s\n", r.site, r.object, r.literals, r.reentrant, r.external, sep)
+	}
 	b.WriteString("].\n")
 	if *out != "" {
 		os.MkdirAll(filepath.Dir(*out), 0o755)
@@ -1131,11 +1142,184 @@ func main() {
 			fmt.Fprintf(&tb, "      ! %s\n", d)
 		}
 	}
+	fmt.Fprintf(&tb, "\ncallbacks: site object literals reentrant external\n")
+	for _, r := range cbRows {
+		fmt.Fprintf(&tb, "%-50s %-14s %d %d %d\n", r.site, r.object, r.literals, r.reentrant, r.external)
+		for _, d := range r.detail {
+			fmt.Fprintf(&tb, "      . %s\n", d)
+		}
+	}
 	if *txt != "" {
 		os.WriteFile(*txt, []byte(tb.String()), 0o644)
 	} else if *out != "" {
 		fmt.Print(tb.String())
 	}
+}
+
+// ---------------------------------------------------------------- callbacks given to the objects (re-entrancy)
+
+// The five objects call application callbacks while holding their mutex (EventsBuffer: Process/Released/Get/
+// Exists/Check; wlru: onEvicted; DataSemaphore: warning; Flushable: onDrop).  sync mutexes are not re-entrant, and
+// the linearizability instances treat a callback as part of the operation's effect: a callback must not call an
+// operation of the object it was given to.  What can be checked of that in this repository: every place where one
+// of the objects is constructed with callbacks is listed; callbacks that are function literals (directly, or a
+// variable/field assigned a literal in the same function) are searched for calls on the expression the new object
+// is stored in (`f.buffer = dagordering.New(...)` -> any `f.buffer.X(...)` inside the literal is re-entrant);
+// callbacks that come from elsewhere are counted as external (covered by the hypothesis only).
+type cbRow struct {
+	site, object                  string
+	literals, reentrant, external int
+	detail                        []string
+}
+
+type ctorSpec struct {
+	pkgSuffix, fn, object string
+	cbArgs                []int // argument positions holding callbacks (a composite literal = its field values)
+}
+
+var ctors = []ctorSpec{
+	{"gossip/dagordering", "New", "EventsBuffer", []int{1}},
+	{"utils/wlru", "NewWithEvict", "Cache", []int{2}},
+	{"utils/datasemaphore", "New", "DataSemaphore", []int{1}},
+	{"kvdb/flushable", "NewLazy", "LazyFlushable", []int{0, 1}},
+	{"kvdb/flushable", "WrapWithDrop", "Flushable", []int{1}},
+}
+
+func scanCallbacks(repo string) []cbRow {
+	var rows []cbRow
+	filepath.WalkDir(repo, func(path string, d os.DirEntry, err error) error {
+		if err != nil {
+			return nil
+		}
+		if d.IsDir() {
+			n := d.Name()
+			if n == ".git" || n == "vendor" || n == "testdata" {
+				return filepath.SkipDir
+			}
+			return nil
+		}
+		if !strings.HasSuffix(path, ".go") || strings.HasSuffix(path, "_test.go") {
+			return nil
+		}
+		f, perr := parser.ParseFile(fset, path, nil, 0)
+		if perr != nil {
+			return nil
+		}
+		imports := map[string]string{} // local name -> import path
+		for _, im := range f.Imports {
+			ip := strings.Trim(im.Path.Value, "\"")
+			name := ip[strings.LastIndex(ip, "/")+1:]
+			if im.Name != nil {
+				name = im.Name.Name
+			}
+			imports[name] = ip
+		}
+		pkgDir, _ := filepath.Rel(repo, filepath.Dir(path))
+		for _, decl := range f.Decls {
+			fd, ok := decl.(*ast.FuncDecl)
+			if !ok || fd.Body == nil {
+				continue
+			}
+			// literals assigned to variables/fields in this function: printed lhs -> literal
+			assigned := map[string]*ast.FuncLit{}
+			ast.Inspect(fd.Body, func(n ast.Node) bool {
+				if as, ok := n.(*ast.AssignStmt); ok {
+					for i, r := range as.Rhs {
+						if fl, ok := r.(*ast.FuncLit); ok && i < len(as.Lhs) {
+							assigned[exprString(as.Lhs[i])] = fl
+						}
+					}
+				}
+				return true
+			})
+			ast.Inspect(fd.Body, func(n ast.Node) bool {
+				as, ok := n.(*ast.AssignStmt)
+				var call *ast.CallExpr
+				target := ""
+				if ok && len(as.Rhs) == 1 {
+					call, _ = as.Rhs[0].(*ast.CallExpr)
+					target = exprString(as.Lhs[0])
+				} else if rs, ok2 := n.(*ast.ReturnStmt); ok2 && len(rs.Results) > 0 {
+					call, _ = rs.Results[0].(*ast.CallExpr)
+				} else if kv, ok3 := n.(*ast.KeyValueExpr); ok3 {
+					call, _ = kv.Value.(*ast.CallExpr)
+				}
+				if call == nil {
+					return true
+				}
+				var spec *ctorSpec
+				switch fn := call.Fun.(type) {
+				case *ast.SelectorExpr:
+					if x, ok := fn.X.(*ast.Ident); ok {
+						for i := range ctors {
+							if fn.Sel.Name == ctors[i].fn && strings.HasSuffix(imports[x.Name], ctors[i].pkgSuffix) {
+								spec = &ctors[i]
+							}
+						}
+					}
+				case *ast.Ident: // inside the defining package
+					for i := range ctors {
+						if fn.Name == ctors[i].fn && pkgDir == ctors[i].pkgSuffix {
+							spec = &ctors[i]
+						}
+					}
+				}
+				if spec == nil {
+					return true
+				}
+				row := cbRow{site: fmt.Sprintf("%s:%d", filepath.ToSlash(strings.TrimPrefix(path, repo+"/")), fset.Position(call.Pos()).Line), object: spec.object}
+				var cbs []ast.Expr
+				for _, ai := range spec.cbArgs {
+					if ai >= len(call.Args) {
+						continue
+					}
+					if cl, ok := call.Args[ai].(*ast.CompositeLit); ok {
+						for _, el := range cl.Elts {
+							if kv, ok := el.(*ast.KeyValueExpr); ok {
+								cbs = append(cbs, kv.Value)
+							} else {
+								cbs = append(cbs, el)
+							}
+						}
+					} else {
+						cbs = append(cbs, call.Args[ai])
+					}
+				}
+				for _, cbe := range cbs {
+					if id, ok := cbe.(*ast.Ident); ok && id.Name == "nil" {
+						continue
+					}
+					fl, ok := cbe.(*ast.FuncLit)
+					if !ok {
+						fl = assigned[exprString(cbe)]
+					}
+					if fl == nil {
+						row.external++
+						row.detail = append(row.detail, "external callback "+exprString(cbe))
+						continue
+					}
+					row.literals++
+					if target == "" {
+						continue
+					}
+					ast.Inspect(fl.Body, func(m ast.Node) bool {
+						if c2, ok := m.(*ast.CallExpr); ok {
+							if se, ok := c2.Fun.(*ast.SelectorExpr); ok && exprString(se.X) == target {
+								row.reentrant++
+								row.detail = append(row.detail, fmt.Sprintf("callback calls %s.%s at %s", target, se.Sel.Name, pos(c2)))
+							}
+						}
+						return true
+					})
+				}
+				rows = append(rows, row)
+				return true
+			})
+		}
+		return nil
+	})
+	sort.Slice(rows, func(i, j int) bool { return rows[i].site < rows[j].site })
+	return rows
 }
 
 func b2i(b bool) int {
